@@ -90,6 +90,33 @@ func runSolver(ctx context.Context, sp solverSpec, file string, timeoutS int) so
 
 // solve races the solvers on one obligation; the first `unsat` wins.
 func solve(c *Ctx, o *Obligation, dir string, timeoutS int, all bool) {
+	solveOne(c, o, dir, timeoutS, all)
+	if o.Status == "unsat" || o.Status == "error" {
+		return
+	}
+	// a goal that is a conjunction is also discharged when every conjunct is
+	cs := conjuncts(o.Goal)
+	if len(cs) <= 1 {
+		return
+	}
+	var ms int64
+	for i, g := range cs {
+		sub := &Obligation{Name: fmt.Sprintf("%s.conj%d", o.Name, i), CtxLen: o.CtxLen, PC: o.PC, Goal: g}
+		solveOne(c, sub, dir, timeoutS, all)
+		ms += sub.Ms
+		if sub.Status != "unsat" {
+			o.Output += fmt.Sprintf("\nconjunct %d of %d not discharged [%s]: %s", i, len(cs), sub.Status, truncate(g, 400))
+			return
+		}
+	}
+	o.Status = "unsat"
+	o.Solver = fmt.Sprintf("split into %d conjuncts", len(cs))
+	o.Ms += ms
+	os.Remove(o.Query)
+	os.Remove(strings.TrimSuffix(o.Query, ".smt2") + ".cvc5.smt2")
+}
+
+func solveOne(c *Ctx, o *Obligation, dir string, timeoutS int, all bool) {
 	base := filepath.Join(dir, sanitize(o.Name))
 	if len(base) > 200 {
 		base = base[:200]
